@@ -17,7 +17,7 @@ CLAIMS = {
         technique="Lean 4 proof (omega over Nat/Int model of 16-bit arithmetic) + regenerated constants + differential correspondence",
         ref="5 C09"),
     "C16": dict(
-        text="Lean theorems by induction over every sample/timeout sequence: RTO in [200 ms, 60 s] always; RTO = clamp(SRTT + max(4 RTTVAR, 10 ms)) after each sample; a timeout gives min(2 RTO, 60 s) and n timeouts min(2^n RTO, 60 s); a sample after any back-off returns the sample-derived value; SRTT between min and max sample. Constants regenerated from rtte.rs; model tied by exact-equality differential.",
+        text="Lean theorems by induction over every sample/timeout sequence: RTO in [200 ms, 60 s] always; RTO = clamp(SRTT + max(4 RTTVAR, 10 ms)) after each sample; a timeout gives min(2 RTO, 60 s) and n timeouts min(2^n RTO, 60 s); a sample after any back-off returns the sample-derived value; SRTT between min and max sample. Constants regenerated from rtte.rs; model tied by exact-equality differential. The rtte oracle also runs the same samples without the timeouts (metamorphic): after every sample the RTO must be the same.",
         note="Trusted: Lean kernel, constants translator, harness. Assumes Duration arithmetic does not overflow (samples < 2^63 ns).",
         technique="Lean 4 proof (induction over event lists, omega) + regenerated constants + differential correspondence",
         ref="5 C16"),
@@ -55,17 +55,17 @@ CLAIMS["C18"] = dict(
     technique="Lean 4 proof (induction over the segmentation loop) + lockstep correspondence of the connection model",
     ref="5 C18")
 CLAIMS["C05"] = dict(
-    text="Lean theorems about send_tx_queue: the first-transmission loop sends a segment only while the remaining budget covers it and subtracts what it sent, so with budget min(cwnd, last_remote_window) - flight the outstanding bytes never exceed the window last advertised; with a zero window the budget is 0 and nothing new leaves; while the RTO counter is set and the timer has not expired send_tx_queue returns without sending. Lockstep correspondence + implementation-side window oracle over scripted ACK/window histories.",
+    text="Lean theorems about send_tx_queue: the first-transmission loop sends a segment only while the remaining budget covers it and subtracts what it sent, so with budget min(cwnd, last_remote_window) - flight the outstanding bytes never exceed the window last advertised; with a zero window the budget is 0 and nothing new leaves; while the RTO counter is set and the timer has not expired send_tx_queue returns without sending. Lockstep correspondence + implementation-side window oracle over scripted ACK/window histories. Added: newDataLoop_bytes (each datagram is 20 header bytes + the segment's payload; payload bytes of one pass <= budget), first_transmissions_within_peer_window (a whole send_tx_queue pass outside recovery/RTO mode: in flight + newly sent <= max(in flight, peer window)), recoveryLoop_bytes (recovery retransmissions <= cwnd - pipe + the entry retransmission); the slow-start history clause is C15 slow_start_history_exact; oracle cc_accounting (the controller is told about each acknowledged byte at most once).",
     note=L2NOTE + "The slow-start history clause (outstanding <= 2 segments + bytes acked before the first loss) composes these with the CUBIC model (C15) and is covered by the lockstep/oracle until C15's composition theorem is added.",
     technique="Lean 4 proof (induction over the send loop) + lockstep correspondence + window oracle",
     ref="5 C05")
 CLAIMS["C07"] = dict(
-    text="Lean theorems about maybe_send_ack / next_timer_to_poll for every state: if the unacknowledged bytes reached 2 x segment size (every forced case sets them to usize::MAX), or the window flipped to/from zero, or the delayed-ACK timer expired with something to acknowledge, send_ack runs; otherwise any unacknowledged consumed byte leaves the delayed-ACK timer armed with deadline <= now + 40 ms and never later than it was; otherwise nothing is sent; the re-poll time handed to the runtime is <= the delayed-ACK deadline; ACK_DELAY = 40 ms and the factor 2 are the regenerated constants. Lockstep correspondence + ack-timeliness oracle (re-poll requested within 40 ms, ACK on the wire by then).",
+    text="Lean theorems about maybe_send_ack / next_timer_to_poll for every state: if the unacknowledged bytes reached 2 x segment size (every forced case sets them to usize::MAX), or the window flipped to/from zero, or the delayed-ACK timer expired with something to acknowledge, send_ack runs; otherwise any unacknowledged consumed byte leaves the delayed-ACK timer armed with deadline <= now + 40 ms and never later than it was; otherwise nothing is sent; the re-poll time handed to the runtime is <= the delayed-ACK deadline; ACK_DELAY = 40 ms and the factor 2 are the regenerated constants. Lockstep correspondence + ack-timeliness oracle (re-poll requested within 40 ms, ACK on the wire by then). Implementation-side oracles added: ack_forcing (two-segment threshold; a duplicate / out-of-order packet is answered in the poll that processes it, also inside a batch with packets that raise the segment size and after a blocked transport) and window_reopen (after an advertised zero window the first read that takes bytes wakes the connection) - the latter found defect D21 on the unchanged tree (fixed, 2a22d41); the supporting theorems are C02 zero_window_means_waker_registered / flush_registers_when_window_low / read_wakes_dispatcher.",
     note=L2NOTE + "That the runtime actually re-polls at the requested time is the tokio assumption shared with C02. The forcing sites inside process_incoming_message (duplicate / out-of-order / gap fill / FIN set the counter to MAX and send at once) are covered by the lockstep, not by a separate theorem.",
     technique="Lean 4 proof (case analysis of the ACK decision, min-fold lemma) + lockstep correspondence + timing oracle",
     ref="5 C07")
 CLAIMS["C17"] = dict(
-    text="Lean theorems over the transition table (stateGate) and the FIN/SYN-ACK functions for every state and header: closing on own initiative assigns the next sequence number to the FIN exactly once; the FIN is emitted only when fin - last_sent = 1 (everything before it transmitted), is an ST_FIN with that number, arms the retransmission timer; a RESET always ends in Closed with StResetReceived unless LastAck and it acknowledges our FIN, and emits nothing; SYN is ignored; an out-of-sequence FIN is dropped without state change in Established/FinWait1/FinWait2; an in-sequence FIN in Established moves to LastAck scheduling our FIN; SynAckSent is left only by DATA/STATE acknowledging seq_nr-1; SYN-ACK resend waits for the 200 ms timer and fails with MaxSynAckRetransmissionsReached at the cap. Lockstep correspondence incl. a handshake/teardown matrix family + stream-content/FIN oracle.",
+    text="Lean theorems over the transition table (stateGate) and the FIN/SYN-ACK functions for every state and header: closing on own initiative assigns the next sequence number to the FIN exactly once; the FIN is emitted only when fin - last_sent = 1 (everything before it transmitted), is an ST_FIN with that number, arms the retransmission timer; a RESET always ends in Closed with StResetReceived unless LastAck and it acknowledges our FIN, and emits nothing; SYN is ignored; an out-of-sequence FIN is dropped without state change in Established/FinWait1/FinWait2; an in-sequence FIN in Established moves to LastAck scheduling our FIN; SynAckSent is left only by DATA/STATE acknowledging seq_nr-1; SYN-ACK resend waits for the 200 ms timer and fails with MaxSynAckRetransmissionsReached at the cap. Lockstep correspondence incl. a handshake/teardown matrix family + stream-content/FIN oracle. Added: fin_not_withheld_after_full_ack (for all 16-bit values within the comparison tolerance the clamp applied after acknowledgement processing leaves fin - last_sent = 1 once everything before the FIN is acknowledged: the D17 fix as a theorem).",
     note=L2NOTE + "The FIN rules are stated for closing on the endpoint's own initiative (FinWait1); a FIN sent in answer to the peer's FIN, or on the death path, may precede unsent data by design (data after a remote FIN is discarded).",
     technique="Lean 4 proof (transition-table case analysis) + lockstep correspondence + FIN/stream oracle",
     ref="5 C17")
@@ -75,17 +75,17 @@ CLAIMS["C06"] = dict(
     technique="Lean 4 proof (Segments invariants, Recovery/RTO step lemmas) + Segments differential + lockstep correspondence",
     ref="5 C06")
 CLAIMS["C03"] = dict(
-    text="Lean theorems: flush returns Ok only with an empty ring, and (C19 ghost history) for every history that means bytes accepted = bytes removed by acknowledgement processing; shutdown returns Ok only on an empty ring of a closed connection; the death path marks both halves closed and fires every registered reader/writer waker; on a closed connection write fails, flush/shutdown return Ok or an error and read (non-empty buffer) never returns Pending; end-of-stream is never returned while a partially read message or a queued payload precedes the EOF marker. Lockstep correspondence + calls-resolve and stream oracles; TxRing/Rx differentials.",
+    text="Lean theorems: flush returns Ok only with an empty ring, and (C19 ghost history) for every history that means bytes accepted = bytes removed by acknowledgement processing; shutdown returns Ok only on an empty ring of a closed connection; the death path marks both halves closed and fires every registered reader/writer waker; on a closed connection write fails, flush/shutdown return Ok or an error and read (non-empty buffer) never returns Pending; end-of-stream is never returned while a partially read message or a queued payload precedes the EOF marker. Lockstep correspondence + calls-resolve and stream oracles; TxRing/Rx differentials. Added oracle completion_honest: flush/shutdown return Ok only when every accepted byte was cumulatively acknowledged in a datagram the connection processed (judged on the wire).",
     note=L2NOTE + "The cross-endpoint step 'what the sender removed the receiver holds in order' composes C04 (ack honesty), C06 (content stability) and C09 and is not mechanised over two endpoints (same gap as C01). Bounded detection time rests on C06 (retry cap) + C08 (inactivity/final-chance timers) + the runtime assumption.",
     technique="Lean 4 proof (TxRing/Rx invariants, read-loop induction, death-path lemma) + lockstep correspondence + oracles",
     ref="5 C03")
 CLAIMS["C02"] = dict(
-    text="Lean theorems for the code's obligations (liveness itself needs the runtime): every accepted send_data! leaves the retransmission timer armed no later than now + RTO and the inactivity timer armed; the re-poll request is <= every armed protocol timer when the transport is writable (and the inactivity deadline when it is blocked); the connection registers its waker when it finds the ring empty, and an accepting write / shutdown request / writer drop fire it (C19); a read returning bytes fires the registered connection waker; flush wakes the reader also for a lone EOF marker (fixed defect); an ACK at or beyond the first unacknowledged segment removes at least one segment (strict progress). Lockstep correspondence compares every wake event and the Sleep deadline after every operation.",
+    text="Lean theorems for the code's obligations (liveness itself needs the runtime): every accepted send_data! leaves the retransmission timer armed no later than now + RTO and the inactivity timer armed; the re-poll request is <= every armed protocol timer when the transport is writable (and the inactivity deadline when it is blocked); the connection registers its waker when it finds the ring empty, and an accepting write / shutdown request / writer drop fire it (C19); a read returning bytes fires the registered connection waker; flush wakes the reader also for a lone EOF marker (fixed defect); an ACK at or beyond the first unacknowledged segment removes at least one segment (strict progress). Lockstep correspondence compares every wake event and the Sleep deadline after every operation. Added: flush_registers_when_window_low, zero_window_means_waker_registered (an advertised zero window always comes with a registered reader->connection wake-up, given the reassembly-queue invariant; D21), oracle window_reopen.",
     note=L2NOTE + "PARTIAL: 'eventually' over fair-lossy schedules is not a theorem here; it follows from these step facts plus the tokio assumptions. Two lost-wake-up defects (poll_shutdown, EOF flush) were found and fixed. The 5 s tracing tick of spawn_utils is not part of the model: wake events are compared exactly, so a wake that only the tick would mask shows as a disagreement.",
     technique="Lean 4 proof (timer/wake step lemmas, progress lemma) + lockstep correspondence of wake events and timers",
     ref="5 C02")
 CLAIMS["C08"] = dict(
-    text="Lean theorems (connection part): once the state is at or past our own FIN every Pending poll leaves the inactivity timer armed no later than one second after that poll and never extends an existing deadline; local close is absorbing under the transition table; Closed (or LastAck when the last ACK is not awaited) makes poll finish. Lockstep correspondence incl. teardown families; after Ready the harness drops the future and nothing more is emitted.",
+    text="Lean theorems (connection part): once the state is at or past our own FIN every Pending poll leaves the inactivity timer armed no later than one second after that poll and never extends an existing deadline; local close is absorbing under the transition table; Closed (or LastAck when the last ACK is not awaited) makes poll finish. Lockstep correspondence incl. teardown families; after Ready the harness drops the future and nothing more is emitted. Added: stale_data_keeps_timers, unconsumed_data_keeps_inactivity (only progress restarts the inactivity timer) and the oracle inactivity_discipline.",
     note=L2NOTE + "PARTIAL: slot release and the connection limit are socket-table facts (C12 theorems no_eviction / limit; exercised with real tasks by the `net` integration oracle: every table entry is released once all streams are dropped, silence afterwards); found and fixed D19 (application gone + zero window: task never ended; theorem app_gone_timer_armed); that Rust runs the Drop guard sending Shutdown(key) when the task's future is dropped, that tokio drops a finished/cancelled task's future, and that the socket dispatcher drains its control channel are assumptions the model cannot exhibit.",
     technique="Lean 4 proof (timer and transition lemmas) + lockstep correspondence",
     ref="5 C08")
@@ -101,7 +101,7 @@ CLAIMS["C01"] = dict(
     ref="5 C01")
 
 CLAIMS["C15"] = dict(
-    text="Lean theorems over a model of cubic.rs on extended rationals (NaN, +-inf, finite) with an explicit rounding operator, for EVERY rounding operator that is monotone, idempotent and exact on integers below 2^53 (IEEE round-to-nearest is) and every cbrt: window() lies between min(2*MSS, peer window) and the peer window in every state whatsoever (NaN/inf cwnd included); for every event sequence (ack / rto / enter recovery / recovered / set_mss / set_remote_window with any numeric arguments, MSS > 0) cwnd and rwnd stay finite, non-negative and representable (invariant by induction over event lists); an RTO gives window = min(2*MSS, peer) and never increases it, entering recovery never increases it, both set ssthresh = max(0.7*cwnd, 2); zero-length ACKs change nothing. Slow-start growth <= acknowledged bytes and MSS rescale keeps the byte value are proved exactly for exact arithmetic (rnd = id) and up to ONE byte for every rounding operator with relative error <= 2^-53 (the standard binary64 error model) and byte magnitudes below 2^50; the negation of the exact clause under binary64 is proved on a concrete witness (D15). Tie: every step of the real Cubic is compared from the implementation's own previous f64 state (bit patterns) with the model instantiated at binary64 rounding.",
+    text="Lean theorems over a model of cubic.rs on extended rationals (NaN, +-inf, finite) with an explicit rounding operator, for EVERY rounding operator that is monotone, idempotent and exact on integers below 2^53 (IEEE round-to-nearest is) and every cbrt: window() lies between min(2*MSS, peer window) and the peer window in every state whatsoever (NaN/inf cwnd included); for every event sequence (ack / rto / enter recovery / recovered / set_mss / set_remote_window with any numeric arguments, MSS > 0) cwnd and rwnd stay finite, non-negative and representable (invariant by induction over event lists); an RTO gives window = min(2*MSS, peer) and never increases it, entering recovery never increases it, both set ssthresh = max(0.7*cwnd, 2); zero-length ACKs change nothing. Slow-start growth <= acknowledged bytes and MSS rescale keeps the byte value are proved exactly for exact arithmetic (rnd = id) and up to ONE byte for every rounding operator with relative error <= 2^-53 (the standard binary64 error model) and byte magnitudes below 2^50; the negation of the exact clause under binary64 is proved on a concrete witness (D15). Tie: every step of the real Cubic is compared from the implementation's own previous f64 state (bit patterns) with the model instantiated at binary64 rounding. Added: slow_start_history_exact (from a fresh controller, after any sequence of acknowledgements and window updates without a loss signal, window() <= 2 x MSS + bytes acknowledged; exact arithmetic).",
     note="Trusted: Lean kernel; that IEEE-754 binary64 +,-,*,/ satisfy `Rounding` on the normal range; model floats have unbounded exponent range (overflow/underflow of finite computations not modelled); libm pow/cbrt compared within 2^-44 relative; harness and comparator. PARTIAL: with f64 rounding the slow-start growth and MSS-rescale equalities hold only up to one byte (theorems slow_start_growth_within_one_byte, mss_change_rescales_within_one_byte); the real code does exceed the acknowledged bytes by one byte (known finding D15, Lean witness d15_slow_start_exceeds_by_one_byte) - the oracle reports any larger excess. That binary64 arithmetic satisfies `RoundErr` with eps = 2^-53 is assumed (IEEE-754), not proved for the executable rnd53. Found and fixed: D4 (window() above the peer window after rounding / MSS change).",
     technique="Lean 4 proof (rounding-parametric float model, invariant by induction over event lists, ordered-field lemmas) + regenerated constants + step-wise differential correspondence on f64 bit patterns",
     ref="5 C15")
@@ -114,7 +114,7 @@ CLAIMS["C12"] = dict(
     technique="Lean 4 proof (table invariant and effect classification by induction over loop fuel and event lists) + regenerated constants + lockstep correspondence of the real Dispatcher",
     ref="5 C12")
 CLAIMS["C13"] = dict(
-    text="Lean theorems for every state and event: the SYN backlog is a FIFO queue - in one loop iteration requests leave it only from the front and at most one enters, at the back, only while fewer than 32 wait, so it never exceeds 32 (induction over event lists); a SYN arriving while earlier SYNs are cached is never matched, only cached behind them or refused; acceptors (cached one, then channel) are likewise served from the front only; on_syn answers with a RESET naming the SYN's connection id and acknowledging its sequence number exactly when the request could not be cached because 32 are waiting; per-address connecting slots: insert fills exactly one free slot and fails only when all 4 are busy, pop (SYN-ACK matched by acknowledged sequence number, or ConnectDropped by token) frees exactly one and keeps the others.",
+    text="Lean theorems for every state and event: the SYN backlog is a FIFO queue - in one loop iteration requests leave it only from the front and at most one enters, at the back, only while fewer than 32 wait, so it never exceeds 32 (induction over event lists); a SYN arriving while earlier SYNs are cached is never matched, only cached behind them or refused; acceptors (cached one, then channel) are likewise served from the front only; on_syn answers with a RESET naming the SYN's connection id and acknowledging its sequence number exactly when the request could not be cached because 32 are waiting; per-address connecting slots: insert fills exactly one free slot and fails only when all 4 are busy, pop (SYN-ACK matched by acknowledged sequence number, or ConnectDropped by token) frees exactly one and keeps the others. The accept_order oracle also checks that the backlog never changes order between two observations (elements leave, at most the SYN just processed joins at the back).",
     note=SOCKNOTE + "Found and fixed: D16 (a new SYN overtook cached SYNs when an accept call and the SYN became ready together; select! race reproduced deterministically enough through the hook's park/resume). PARTIAL: 'each successful connect is matched by exactly one accepted stream on the listener and the two are wired to each other' spans two sockets; here each connectOk/accepted effect consumes its slot/acceptor and inserts exactly its key, the cross-socket pairing is not mechanised. That a dropped connect()/accept() future releases its reservation relies on Rust running the drop guard (ConnectDropped) / closing the oneshot, which the lockstep exercises (dropconn/dropacc).",
     technique="Lean 4 proof (queue suffix invariants by induction over loop fuel, slot lemmas) + regenerated constants + lockstep correspondence of the real Dispatcher incl. the select! race",
     ref="5 C13")
